@@ -172,6 +172,57 @@ build_vars (const char *cls, int n)
   return p;
 }
 
+/* programs whose rules ask the compiler's constant pool (constants[ORC_N_CONSTANTS]) for
+ * k different values: the byte shifts mask with a constant that depends on the shift
+ * amount, the other steps each bring the constants of one x86 rule */
+static OrcProgram *
+build_pool (int k)
+{
+  static const struct { const char *op; int dsz, ssz, two; } step[] = {
+    { "avgsb", 1, 1, 1 }, { "div255w", 2, 2, 0 }, { "maxuw", 2, 2, 1 }, { "divluw", 2, 2, 1 },
+    { "swapw", 2, 2, 0 }, { "signw", 2, 2, 0 }, { "maxul", 4, 4, 1 }, { "addssl", 4, 4, 1 },
+    { "convulq", 8, 4, 0 }, { "swapl", 4, 4, 0 }, { "swapwl", 4, 4, 0 }, { "select0wb", 1, 2, 0 },
+    { "select1wb", 1, 2, 0 }, { "select0lw", 2, 4, 0 }, { "select1lw", 2, 4, 0 }, { "swapq", 8, 8, 0 },
+    { "minuw", 2, 2, 1 }, { "avgsw", 2, 2, 1 }, { "minul", 4, 4, 1 }, { "subssl", 4, 4, 1 },
+  };
+  OrcProgram *p = orc_program_new ();
+  /* several temporaries per size, written in turn: every further write to one temporary costs the compiler
+   * a duplicate, and that table must not be what ends the compile */
+  int d[9], a[9], s[9], t[9][8], nt[9] = { 0 }, w[9] = { 0 }, c[8], i, j, n = 0;
+  static const int sz[4] = { 1, 2, 4, 8 }, cnt[4] = { 6, 3, 2, 1 };
+#define NEXT_T(size) (t[size][w[size]++ % nt[size]])
+  for (i = 0; i < 4; i++) {
+    char nm[8];
+    sprintf (nm, "d%d", sz[i]); d[sz[i]] = orc_program_add_destination (p, sz[i], nm);
+    sprintf (nm, "s%d", sz[i]); a[sz[i]] = orc_program_add_source (p, sz[i], nm);
+    /* the steps read a copy of the source: a source array operand costs a temporary per use */
+    sprintf (nm, "x%d", sz[i]); s[sz[i]] = orc_program_add_temporary (p, sz[i], nm);
+    for (j = 0; j < cnt[i]; j++) {
+      sprintf (nm, "t%d%c", sz[i], 'a' + j); t[sz[i]][j] = orc_program_add_temporary (p, sz[i], nm);
+    }
+    nt[sz[i]] = cnt[i];
+  }
+  for (i = 1; i <= 7; i++) {
+    char nm[8];
+    sprintf (nm, "c%d", i); c[i] = orc_program_add_constant (p, 1, i, nm);
+  }
+  orc_program_append_2 (p, "copyb", 0, s[1], a[1], ORC_VAR_D1, ORC_VAR_D1);
+  orc_program_append_2 (p, "copyw", 0, s[2], a[2], ORC_VAR_D1, ORC_VAR_D1);
+  orc_program_append_2 (p, "copyl", 0, s[4], a[4], ORC_VAR_D1, ORC_VAR_D1);
+  orc_program_append_2 (p, "copyq", 0, s[8], a[8], ORC_VAR_D1, ORC_VAR_D1);
+  for (i = 1; i <= 7 && n < k; i++, n++) orc_program_append_2 (p, "shlb", 0, NEXT_T (1), s[1], c[i], ORC_VAR_D1);
+  for (i = 1; i <= 7 && n < k; i++, n++) orc_program_append_2 (p, "shrub", 0, NEXT_T (1), s[1], c[i], ORC_VAR_D1);
+  for (i = 0; i < (int) (sizeof (step) / sizeof (step[0])) && n < k; i++, n++)
+    orc_program_append_2 (p, step[i].op, 0, NEXT_T (step[i].dsz), s[step[i].ssz],
+        step[i].two ? s[step[i].ssz] : ORC_VAR_D1, ORC_VAR_D1);
+  orc_program_append_2 (p, "copyb", 0, d[1], w[1] ? t[1][0] : s[1], ORC_VAR_D1, ORC_VAR_D1);
+  orc_program_append_2 (p, "copyw", 0, d[2], w[2] ? t[2][0] : s[2], ORC_VAR_D1, ORC_VAR_D1);
+  orc_program_append_2 (p, "copyl", 0, d[4], w[4] ? t[4][0] : s[4], ORC_VAR_D1, ORC_VAR_D1);
+  orc_program_append_2 (p, "copyq", 0, d[8], w[8] ? t[8][0] : s[8], ORC_VAR_D1, ORC_VAR_D1);
+#undef NEXT_T
+  return p;
+}
+
 /* ------------------------------------------------------------------ one compile */
 
 /* events of a group attempt are held back until every target of the line
@@ -197,6 +248,7 @@ child (const char *line, const char *kind, const char *id, const char *rest, con
   else if (kind[0] == 'O') p = build_opcode (a, b, c);
   else if (kind[0] == 'H') p = build_heavy (a, atoi (b));
   else if (kind[0] == 'V') p = build_vars (a, atoi (b));
+  else if (kind[0] == 'K') p = build_pool (atoi (a));
   if (!p) return;
   res = orc_program_compile_for_target (p, t);
   cls = ORC_COMPILE_RESULT_IS_SUCCESSFUL (res) ? "S" : (ORC_COMPILE_RESULT_IS_FATAL (res) ? "F" : "O");
